@@ -52,6 +52,10 @@ SPECIAL_CHARS = [
     "\u0345",  # combining ypogegrammeni: upper() is a letter
     "\u2116",  # numero sign (jcuken layout)
     "\u0451", "\u0401",  # io
+    # letters whose casefold() differs from their lower() without changing the length
+    "\u03d1", "\u03d5", "\u03d6", "\u03f0", "\u03f1", "\u03f5", "\u1e9b", "\u1fbe",
+    "\uab70", "\uab71", "\uab72", "\uab73", "\uabbf",  # Cherokee small letters (casefold gives the capitals)
+    "\u13a0", "\u13f8",
 ]
 
 _POOL = None
@@ -128,6 +132,9 @@ WALKS = ["1qaz", "2wsx", "qwer", "asdf", "zxcv", "1q2w3e", "!QAZ", "zaq1", "xsw2
 YEARS = ["2019", "1999", "2000", "1984", "2024", "19", "20", "192", "201", "20199", "12019", "2100", "19²٣", "1900", "2099", "1812", "1899", "2119", "3019", "0019", "1066", "18", "21"]
 CONTEXT = [";p", ":p", "*0*", "#1", "No.1", "no.1", "No.", "i<3", "I<3", "<3", "Mr.", "mr.", "MR.", "MS.", "Ms.", "ms.",
            "Mz.", "mz.", "MZ.", "St.", "st.", "Dr.", "dr.", "#12", "#1a2", "#123", "#", "<", "no.", "NO.1", "*0"]
+# hosts / words with letters that casefold() but not lower() changes
+FOLD = ["\u00b5torrent", "\u017fite", "\u03c2x", "\u03d1eta", "\u03d5i", "\u03f0a", "\u03f1o", "\u1e9bt", "\u1fbeo",
+        "\uab70\uab71\uab72\uab73", "a\uabbfb", "\u00b5", "\u017f", "\u03c2", "\uab70", "\u0345x"]
 WEB = ["www.", ".com", ".org", ".ru", ".uk", ".net", ".nl", ".se", ".nl.se", ".de", ".it", ".ch", ".mil", ".no", ".es", ".us", ".ca",
        "http://", "http://www.", "https://", "/", "/index", ".", "..", "@", "@@", ":", " ", "google", "mail", "gmail.com", "bob@",
        ".COM", "Www.", "HTTP://", ".co.uk", ".com.", ".comm", ".com/", ".com1", "a.b", ".edu", ".gov", ".jp", ".fr", ".au"]
@@ -147,7 +154,10 @@ FIXED = ["\u0130.ru2\u0130", "\u0130.com", "\u0130@a.com1", "a\u0130b", "\u0130"
          "20pass2019", "020190", "#1234pass#1", "er5tgb", "deer43", "112233", "123;", "PaSSword", "1qaz2019#1pass!",
          "http://www.google.com/a b", "a.nl.se", "x.nl", "No.1No.", "i<3U", "*0*#1<3", "19\u00b2\u0663", "q1w2e3r4", "1q2w3e4r5t"]
 
-FAMILIES = [("walk", WALKS), ("year", YEARS), ("context", CONTEXT), ("web", WEB), ("word", WORDS), ("digit", DIGITS),
+FIXED += ["\u00b5torrent.com", "\u017fite.org1", "www.\u03c2x.ru", "\uab70\uab71\uab72\uab73", "bob@\u00b5ail.com",
+          "X\uab70\uab71.net", "http://www.\u03d1eta.de/\u017f", "pass\u1e9bword", "\u03d5i@\u03f1o.fr", "\u0345x.it"]
+
+FAMILIES = [("fold", FOLD), ("walk", WALKS), ("year", YEARS), ("context", CONTEXT), ("web", WEB), ("word", WORDS), ("digit", DIGITS),
             ("symbol", SYMBOLS), ("odd", ODD)]
 
 
@@ -172,6 +182,8 @@ def gen_string(rng, allowed=None):
     for _ in range(n):
         fam, frs = rng.choice(FAMILIES)
         f = rng.choice(frs)
+        if fam == "fold" and rng.random() < 0.7:     # mostly as the host of a URL / e-mail
+            f = rng.choice(["", "www.", "http://", "bob@", "x"]) + f + rng.choice(WEB[1:17])
         if fam in ("word", "web", "context", "walk") and rng.random() < 0.5:
             f = _case(rng, f)
         if rng.random() < 0.12 and len(f) > 1:       # truncated trigger
